@@ -1,5 +1,5 @@
 // target: src/sync.rs
-// labels: valid.recon.* valid.insert_entry.* valid.sig.* valid.empty.*
+// labels: valid.recon.* valid.insert_entry.* valid.sig.* valid.empty.* recon.gate.*
 // tier: quick
 // bound: one receiving replica (fresh memory store per message), one reconciliation message carrying every sequence of up to 3 entries (thorough
 // tier: 4) over 10 entry kinds {valid record, valid deletion marker, valid just below the future bound, content tampered after signing, signatures
